@@ -14,7 +14,7 @@ type logEntry struct {
 	isKey bool
 }
 
-type GoodE1 struct {
+type GoodEcont struct {
 	interceptor.NoOp
 	mu     sync.Mutex
 	log    map[uint64]*logEntry
@@ -22,7 +22,7 @@ type GoodE1 struct {
 	next   uint64
 }
 
-func (g *GoodE1) BindLocalStream(_ *interceptor.StreamInfo, w interceptor.RTPWriter) interceptor.RTPWriter {
+func (g *GoodEcont) BindLocalStream(_ *interceptor.StreamInfo, w interceptor.RTPWriter) interceptor.RTPWriter {
 	return interceptor.RTPWriterFunc(func(h *rtp.Header, p []byte, a interceptor.Attributes) (int, error) {
 		g.mu.Lock()
 		g.log[g.next] = &logEntry{seq: h.SequenceNumber}
